@@ -275,6 +275,12 @@ class Expr:
         if type(op) not in CMP:
             self.fail(whole, 'comparison operator')
         sym = CMP[type(op)]
+        if ta == 'pyval' and tb == 'pyval' and a == b and isinstance(op, ast.Eq):
+            return '(pv_self_eq %s)' % a          # `x == x`: false exactly for NaN
+        if ta == 'pyval' and tb == 'Z':
+            a, ta = '(pv_int %s)' % a, 'Z'          # guarded by `type(x) is int` in the source
+        if tb == 'pyval' and ta == 'Z':
+            b, tb = '(pv_int %s)' % b, 'Z'
         if ta == 'Z' and tb == 'Z':
             return '(%s %s %s)' % (a, sym, b)
         if ta == 'optZ' and tb == 'Z':
